@@ -5,7 +5,7 @@
      blk <W>                         vorbis_synthesis_blockin with a marker block: vb->pcm[c][j] = k*16384 + j + 1 (k counts blocks)
      restart                         vorbis_synthesis_restart
      real <ch> <rate> <q> <sig> <seed> <n>     encode a stream, keep its packets, decode it cleanly
-     fault <kind> <j> [<arg>]        decode again with packet j dropped / duplicated / truncated to <arg> bytes / bit <arg> flipped /
+     fault <kind> <j> [<arg> [<vis>]]  (vis>0: only every vis-th packet keeps its granule position, as after Ogg paging) decode again with packet j dropped / duplicated / truncated to <arg> bytes / bit <arg> flipped /
                                      or decoding restarted at j; report which packets' output differs from the clean decode
 */
 #include "mkstream.h"
@@ -17,7 +17,7 @@ static uint64_t *c11_clean_hash=NULL; static long *c11_clean_cnt=NULL; static in
 static uint64_t c11_fnv(uint64_t h,const void *p,long n){ const unsigned char *b=p; long i; for(i=0;i<n;i++){ h^=b[i]; h*=1099511628211ULL; } return h; }
 
 /* decode the stored stream with one disturbance; fills hash/cnt per ORIGINAL packet index (the output produced when that packet went in) */
-static void c11_decode(int kind,long j,long arg,uint64_t *hash,long *cnt,int *rcs){
+static void c11_decode(int kind,long j,long arg,long vis,uint64_t *hash,long *cnt,int *rcs){
   vorbis_info vi; vorbis_comment vc; vorbis_dsp_state vd; vorbis_block vb; long k; int i;
   vorbis_info_init(&vi); vorbis_comment_init(&vc);
   for(i=0;i<3;i++) vorbis_synthesis_headerin(&vi,&vc,&c11_h[i]);
@@ -26,6 +26,7 @@ static void c11_decode(int kind,long j,long arg,uint64_t *hash,long *cnt,int *rc
     ogg_packet op; unsigned char *tmp=NULL; int reps=1,r; float **pcm; long n;
     hash[k]=14695981039346656037ULL; cnt[k]=0; rcs[k]=0;
     memset(&op,0,sizeof op); op.packet=c11_pkts[k].p; op.bytes=c11_pkts[k].n; op.granulepos=c11_pkts[k].gp; op.e_o_s=c11_pkts[k].eos; op.packetno=c11_pkts[k].no;
+    if(vis>0&&!op.e_o_s&&(k%vis)!=vis-1)op.granulepos=-1;      /* as a demuxer delivers them: only the packet ending a page (every vis-th here) has a granule position */
     if(k==j){
       if(kind==1){ rcs[k]=-1; continue; }                       /* drop */
       if(kind==2) reps=2;                                        /* duplicate */
@@ -118,15 +119,15 @@ static int c11_main(int argc,char **argv){
       vorbis_block_clear(&evb); vorbis_dsp_clear(&evd); vorbis_comment_clear(&evc); vorbis_info_clear(&evi);
       free(c11_clean_hash); free(c11_clean_cnt);
       c11_clean_hash=malloc(sizeof(uint64_t)*(c11_npk+1)); c11_clean_cnt=malloc(sizeof(long)*(c11_npk+1)); rcs=malloc(sizeof(int)*(c11_npk+1));
-      c11_decode(0,-1,0,c11_clean_hash,c11_clean_cnt,rcs);
+      c11_decode(0,-1,0,0,c11_clean_hash,c11_clean_cnt,rcs);
       { long tot=0; for(i=0;i<c11_npk;i++)tot+=c11_clean_cnt[i]; printf("real rc=0 packets=%ld samples=%ld\n",c11_npk,tot); }
       free(rcs);
     }else if(!strcmp(tok[0],"fault")&&n>=3&&c11_npk>0){
-      int kind=atoi(tok[1]); long j=atol(tok[2]),arg=n>=4?atol(tok[3]):0,k2; uint64_t *h=malloc(sizeof(uint64_t)*(c11_npk+1)); long *cn=malloc(sizeof(long)*(c11_npk+1)); int *rcs=malloc(sizeof(int)*(c11_npk+1));
+      int kind=atoi(tok[1]); long j=atol(tok[2]),arg=n>=4?atol(tok[3]):0,vis=n>=5?atol(tok[4]):0,k2; uint64_t *h=malloc(sizeof(uint64_t)*(c11_npk+1)); long *cn=malloc(sizeof(long)*(c11_npk+1)); int *rcs=malloc(sizeof(int)*(c11_npk+1));
       long lastbad=-1,nbad=0;
       if(j>=c11_npk)j=c11_npk-1;
-      c11_decode(kind,j,arg,h,cn,rcs);
-      printf("fault kind=%d j=%ld rc_j=%s changed=",kind,j,ovname(rcs[j]));
+      c11_decode(kind,j,arg,vis,h,cn,rcs);
+      printf("fault kind=%d j=%ld vis=%ld rc_j=%s changed=",kind,j,vis,ovname(rcs[j]));
       for(k2=0;k2<c11_npk;k2++) if(h[k2]!=c11_clean_hash[k2]||cn[k2]!=c11_clean_cnt[k2]){ printf("%s%ld",nbad?",":"",k2); nbad++; lastbad=k2; }
       if(!nbad)putchar('-');
       printf(" lastbad=%ld packets=%ld\n",lastbad,c11_npk);
